@@ -413,11 +413,15 @@ def memo_key_sites(func):
                   for n in ast.walk(e) if isinstance(n, ast.Name)}
         value = expand(node.value)
         used = {n.id for n in ast.walk(value) if isinstance(n, ast.Name)}
-        # one more level: locals of the value
-        for nam in list(used):
-            if len(defs.get(nam, [])) == 1:
-                used |= {n.id for n in ast.walk(defs[nam][0])
-                         if isinstance(n, ast.Name)}
+        # what the locals of the value are computed from (every definition:
+        # an over-approximation of "depends on")
+        for _ in range(4):
+            for nam in list(used):
+                if nam in params:
+                    continue
+                for dfn in defs.get(nam, []):
+                    used |= {n.id for n in ast.walk(dfn)
+                             if isinstance(n, ast.Name)}
         for par in params:
             if par not in used or par in bare:
                 continue
